@@ -572,6 +572,21 @@ impl LLFree<'_> {
     }
 }
 
+/// Read-only projections for the verification harness.
+#[cfg(feature = "verif")]
+impl LLFree<'_> {
+    /// Number of local slots of `class`, if it is configured.
+    pub fn verif_class_locals(&self, class: Class) -> Option<usize> {
+        self.locals.class_locals(class)
+    }
+    /// The reservation currently held by a local slot: `(start row, free)`.
+    pub fn verif_local(&self, class: Class, local: usize) -> Option<(usize, usize)> {
+        self.locals
+            .load(class, local)
+            .map(|Reservation { row, free, .. }| (row.0, free))
+    }
+}
+
 impl fmt::Debug for LLFree<'_> {
     fn fmt(&self, f: &mut fmt::Formatter<'_>) -> fmt::Result {
         let huge = self.frames() / (1 << HUGE_ORDER);
